@@ -1,6 +1,7 @@
 #!/bin/bash
 # usage: mut.sh <prop> <file-in-repo> <python-regex-old> <new> [tier]
 # applies a single textual mutation to /repo, runs the check, reverts. Prints rc.
+mkdir -p /verif/run; exec 9>/verif/run/.repo.lock; flock -x 9; export VERIF_LOCK_HELD=1   # /repo is modified below: keep concurrent check builds out
 set -u
 prop=$1; file=$2; old=$3; new=$4; tier=${5:-quick}
 cd /repo || exit 9
